@@ -6,9 +6,6 @@ From Eino Require Import Base.Util Model.Graph Model.RunLoop Model.Interrupt
 From Coq Require Import Permutation.
 Open Scope N_scope.
 
-(* what a lambda node computes *)
-Definition lam_body (k : N) (v : value) : value := VMap [(k, v)].
-
 (* the graph has a state, and every node that may ask for a rerun has the rebuilding pre-handler
    (the property's proviso: the re-run starts from the input its pre-handler rebuilds from state) *)
 Definition rerun_ok (g : gspec) : Prop :=
@@ -25,7 +22,7 @@ Section RerunInst.
   Let gr := gs_graph g.
 
   Lemma lambda_exec_shape : forall k v e,
-    (exists e', lambda_exec g k v e = (TDone (lam_body k v), e')) \/
+    (exists e', lambda_exec g k v e = (TDone (lam_body g k v), e')) \/
     (memN k (gs_st g) = true /\ exists e', lambda_exec g k v e = (TRerun, e')).
   Proof.
     intros k v e. unfold lambda_exec.
@@ -101,7 +98,7 @@ Section RerunInst.
   Lemma rerun_equiv_model_l : forall gi x e n fuelU cs0 vU lU cos e' cos' co,
     g_mode gr = Pregel -> g_eager gr = false ->
     init_chans value gr = Ok cs0 ->
-    start VNil (ifold gr) (igetr gr) (pre_fn g) (execU (SCP := ncp) (SINFO := ninfo) lam_body) [] [] fuelU
+    start VNil (ifold gr) (igetr gr) (pre_fn g) (execU (SCP := ncp) (SINFO := ninfo) (lam_body g)) [] [] fuelU
           cs0 (gs0 g) x tt = (ODone vU, lU, tt) ->
     (fuelU <= seg_fuel gr)%nat ->
     drive (fun c : cpt => c) (fun c => Some c) (seg_fresh (lam_ex g) gi g x) (seg_resumed (lam_ex g) gi g)
@@ -117,7 +114,7 @@ Section RerunInst.
                (seg_resumed (lam_ex g) gi g)
                (resume VNil (ifold gr) (igetr gr) (pre_fn g) (lam_ex g)
                        (gs_before g) (gs_after g) (seg_fuel gr))) in Hd.
-    - assert (Hex : forall k v e0, (exists e1, lam_ex g k None v e0 = (TDone (lam_body k v), e1)) \/
+    - assert (Hex : forall k v e0, (exists e1, lam_ex g k None v e0 = (TDone (lam_body g k v), e1)) \/
                                    (memN k (gs_st g) = true /\ exists e1, lam_ex g k None v e0 = (TRerun, e1)))
         by (intros; apply lambda_exec_shape).
       assert (H1 : forall cs l cs', pinv cs -> ifold gr cs l = Ok cs' -> pinv cs')
@@ -139,7 +136,7 @@ Section RerunInst.
       assert (Hser : forall c : cpt, (fun c : cpt => Some c) ((fun c : cpt => c) c) = Some c) by reflexivity.
       assert (Hp0 : pinv cs0) by (eapply init_chans_pinv; eauto).
       assert (Hg0 : has_state (gs0 g)) by (unfold gs0; destruct H_ok as [-> _]; eexists; reflexivity).
-      exact (rerun_equiv_l VNil (ifold gr) (igetr gr) (pre_fn g) lam_body (fun k => memN k (gs_st g) = true)
+      exact (rerun_equiv_l VNil (ifold gr) (igetr gr) (pre_fn g) (lam_body g) (fun k => memN k (gs_st g) = true)
                (lam_ex g) (gs_before g) (gs_after g) Hex pinv H1 H2 H3 H4 H5 H6 H7 H8
                has_state pre_fn_has_state pre_fn_rebuild (fun c : cpt => c) (fun c => Some c) Hser
                (seg_fuel gr) cs0 (gs0 g) x fuelU vU lU n e cos e' cos' co Hp0 Hg0 HU Hle Hd Hcos).
@@ -150,9 +147,9 @@ End RerunInst.
 
 (* on a lambda node the node bodies the correspondence evaluates are [lambda_exec] *)
 Lemma node_exec_lambda : forall d F g k cpo v e n,
-  find_node (gs_graph g) k = Some n -> (forall j, n_kind n <> KSub j) ->
+  find_node (gs_graph g) k = Some n -> (forall j, n_kind n <> KSub j) -> nlist_get k (gs_inkey g) = None ->
   node_exec d F g k cpo v e = lam_ex g k cpo v e.
 Proof.
-  intros d F g k cpo v e n Hf Hk. destruct d; simpl; rewrite Hf; destruct (n_kind n) eqn:E; auto;
-    exfalso; eapply Hk; eauto.
+  intros d F g k cpo v e n Hf Hk Hi. destruct d; simpl; unfold key_input; rewrite Hf, Hi;
+    destruct (n_kind n) eqn:E; auto; exfalso; eapply Hk; eauto.
 Qed.
